@@ -11,6 +11,8 @@ pub mod cpu_pinning;
 pub mod privileges;
 #[cfg(feature = "rustls")]
 pub mod rustls_config;
+#[cfg(feature = "verif")]
+pub mod verif;
 
 /// IndexMap using AHash hasher
 pub type IndexMap<K, V> = indexmap::IndexMap<K, V, RandomState>;
@@ -47,6 +49,10 @@ impl ServerStartInstant {
         Self(Instant::now())
     }
     pub fn seconds_elapsed(&self) -> Option<SecondsSinceServerStart> {
+        #[cfg(feature = "verif")]
+        if let Some(seconds) = crate::verif::mock_seconds_elapsed() {
+            return Some(SecondsSinceServerStart(seconds));
+        }
         Instant::now().checked_duration_since(self.0).map(|dur| {
             let seconds = dur
                 .as_secs()
